@@ -1,9 +1,9 @@
 package rules
 
 import (
-	"reflect"
 	"go/token"
 	"go/types"
+	"reflect"
 	"sort"
 	"strings"
 
